@@ -646,6 +646,47 @@ def parser_correspondence(ctx, drv, text, loader, star):
 KINDS = ['repro', 'empty', 'single', 'basic', 'graphs', 'star', 'bnodes', 'inmemory', 'noncanonical', 'star', 'graphs', 'basic']
 
 
+def large_bnode_case(ctx):
+    """A result far larger than any plausible loading batch (15 600 statements) whose blank nodes each occur in three statements:
+    however the loaders are fed (one document, chunks, streams), a blank node of the set must stay ONE node of the graph / store."""
+    import rdflib
+    import morph_kgc
+    n = 5200
+    d = os.path.join(ctx.tmp, 'large')
+    os.makedirs(d, exist_ok=True)
+    with open(os.path.join(d, 'data.csv'), 'w', encoding='utf-8') as f:
+        f.write('id,a,b\n' + ''.join(f'{i},a{i},b{i % 7}\n' for i in range(n)))
+    mp = os.path.join(d, 'm.ttl')
+    with open(mp, 'w', encoding='utf-8') as f:
+        f.write(f'''@prefix rr: <http://www.w3.org/ns/r2rml#> . @prefix rml: <http://semweb.mmlab.be/ns/rml#> . @prefix ql: <http://semweb.mmlab.be/ns/ql#> .
+<http://ex/TM> rml:logicalSource [ rml:source "{os.path.join(d, 'data.csv')}"; rml:referenceFormulation ql:CSV ];
+  rr:subjectMap [ rr:template "n{{id}}"; rr:termType rr:BlankNode ];
+  rr:predicateObjectMap [ rr:predicate <http://ex/a>; rr:objectMap [ rml:reference "a" ] ];
+  rr:predicateObjectMap [ rr:predicate <http://ex/b>; rr:objectMap [ rml:reference "b" ] ];
+  rr:predicateObjectMap [ rr:predicate <http://ex/t>; rr:object <http://ex/T> ] .
+''')
+    cfg = f'[CONFIGURATION]\nnumber_of_processes=1\nlogging_level=CRITICAL\n[DS]\nmappings={mp}\n'
+    inp = {'kind': 'large-bnodes', 'rows': n}
+    ctx.case(inp, nontrivial=True, kind='large result with shared blank nodes')
+    for name, run_ in (('materialize', lambda: morph_kgc.materialize(cfg)), ('materialize_oxigraph', lambda: morph_kgc.materialize_oxigraph(cfg))):
+        try:
+            g = run_()
+        except Exception as e:   # noqa: BLE001
+            ctx.violation(f'{name} fails on a {3 * n}-statement result: {type(e).__name__}: {str(e)[:200]}', inp)
+            continue
+        per_subject = {}
+        if name == 'materialize':
+            for s_, p_, o_ in g:
+                per_subject.setdefault(s_, set()).add((p_, o_))
+        else:
+            for q in g:
+                per_subject.setdefault(q.subject, set()).add((q.predicate, q.object))
+        total = sum(len(v) for v in per_subject.values())
+        if total != 3 * n or len(per_subject) != n or any(len(v) != 3 for v in per_subject.values()):
+            ctx.violation(f'{name}: {3 * n} statements about {n} blank nodes (three each) are loaded as {total} statements about '
+                          f'{len(per_subject)} subjects (blank nodes of the set split or merged by the loader)', inp)
+
+
 def run(ctx, lean, findings):
     drv = ctx.get_driver() if ctx.model_available else None
     open_ids = {f['id'] for f in findings if f.get('status') == 'open'}
@@ -674,11 +715,16 @@ def run(ctx, lean, findings):
         if idx >= ctx.budget(200, 4000):
             break
     ctx.notes.append(f'{idx} generated cases x 2 formats')
+    large_bnode_case(ctx)
 
 
 def replay(ctx, data):
     """re-run the recorded case on the current tree: still failing = the direct oracle reports a non-listed violation"""
     inp = data['input']
+    if inp.get('kind') == 'large-bnodes':
+        before = len(ctx.violations)
+        large_bnode_case(ctx)
+        return len(ctx.violations) > before
     if 'mapping' not in inp:
         return True
     d = os.path.join(ctx.tmp, 'replay')
